@@ -7,6 +7,9 @@ CHECKS = {
  "C01": ("operation histories vs executable list-of-rows model + structural invariant hook after every step (reference-model runtime monitor)",
          "Held on the histories executed: random and targeted operation sequences on alignments / sequence sets, every access path and the private index/length state compared with a list model after each step. Exploration, not proof: only generated histories (<=12 operations, <=12x12 containers) are covered.",
          "Trusted: the reference model in mon/c01 (documented meaning of each operation), the hook align/verif_invariants.go, Go runtime.", "1/C01"),
+ "C03": ("hostile-input fuzzing of every parser in child processes under a logical termination oracle (counting reader: bounded post-EOF reads; per-case CPU budget), crash/exit capture through a write-ahead case log, and a well-formedness oracle on every successful result",
+         "Held on the inputs executed: mutants (1-3 deep) of valid files of 12 format/option sets and of the partition format, all prefixes and all single-byte corruptions of sampled files, each parser option set; every call must terminate, not crash, and either fail explicitly or return a non-empty rectangular uniquely named result consistent with the header counts.",
+         "Trusted: the monitor's own header scanner and termination thresholds (10000 post-EOF reads, 20 s CPU per parse of a < 2 kB input); io.ExitWithMessage counts as an explicit error; only generated mutants are covered.", "1/C03"),
 }
 NOT_YET = {}
 def main():
